@@ -62,6 +62,36 @@ Proof.
   rewrite groestl_count_eq.
   destruct (len_padding_be 8 b _) as [b' outb]. cbn [snd]. reflexivity.
 Qed.
+(** more than (b): the record and the concrete model move in lock-step from EVERY state
+    ([groestl_to_model] reads an instance of the record as the model's hasher struct) *)
+Definition groestl_to_model (i : inst (X * N)) : Model.Groestl.hasher :=
+  H (i_buf i) (snd (i_st i)) (fst (i_st i)).
+
+Lemma groestl_real_new_sim c bits out :
+  groestl_to_model (h_new (groestl_real c bits out)) = new_truncated c bits.
+Proof. reflexivity. Qed.
+
+Lemma groestl_real_update_sim c bits out i d :
+  groestl_to_model (h_update (groestl_real c bits out) i d) = update c (groestl_to_model i) d.
+Proof.
+  destruct i as [[cv n] b].
+  unfold h_update, groestl_real, groestl_hasher, groestl_shape, groestl_to_model, update.
+  cbn [h_size h_lazy h_init h_pre h_step h_fin i_st i_buf bb_input fst snd h_buf h_count h_cv].
+  destruct (input_block b d) as [b1 blocks]. cbn [fst snd].
+  rewrite groestl_fold_step_absorb.
+  destruct (fold_left (absorb c) blocks (n, cv)) as [cnt cv']. reflexivity.
+Qed.
+
+Lemma groestl_real_finalize_sim c bits out i :
+  h_finalize (groestl_real c bits out) i = out (finalize_dirty c (groestl_to_model i)).
+Proof.
+  destruct i as [[cv n] b].
+  unfold h_finalize, groestl_real, groestl_hasher, groestl_shape, groestl_fin, groestl_to_model.
+  cbn [h_fin i_st i_buf fst snd].
+  unfold finalize_dirty, finalize_with, extra_block. cbn [h_buf h_count h_cv].
+  rewrite groestl_count_eq.
+  destruct (len_padding_be 8 b _) as [b' outb]. reflexivity.
+Qed.
 End Real.
 
 (** * the four types *)
